@@ -356,6 +356,11 @@ X_BitBack(e) ==
 \* ---- C06 ------------------------------------------------------------------
 X_Line(e) == Ok(e) /\ LineAccept(e.r, e.a.moves, e.a.end)
 
+\* Segments with an end point at longitude exactly +180 (stored as given, looked up in column 0): on the cylinder the
+\* point lies on the border between the last and the first column.  Only the clause that needs no walk is judged:
+\* no duplicates, and every returned voxel meets the segment (measured by the harness in longitude / latitude /
+\* altitude, the voxel's box taken at its own longitudes and one turn east and west of them).
+X_LineTouch(e) == Ok(e) /\ e.a.off = <<>> /\ e.a.n = e.a.distinct /\ e.a.n >= 1
 X_LineLong(e) == Ok(e) /\ LineLongAccept(e.r, e.a.end, e.a.off)
 X_LineAxisCount(e) == Ok(e) /\ LineAxisCountAccept(e.r, e.a.n)
 X_LineAxis(e) == Ok(e) /\ LineAxisAccept(e.r, e.a.axis, e.a.n)
@@ -514,6 +519,7 @@ Explains(e) ==
       [] e.op = "LineAxis"             -> X_LineAxis(e)
       [] e.op = "LineAxisCount"        -> X_LineAxisCount(e)
       [] e.op = "LineLong"             -> X_LineLong(e)
+      [] e.op = "LineTouch"            -> X_LineTouch(e)
       [] e.op = "CorridorAxis"         -> X_CorridorAxis(e)
       [] e.op = "CorridorInvalid"      -> X_CorridorInvalid(e)
       [] e.op = "Fit"                  -> X_Fit(e)
@@ -592,6 +598,7 @@ Expected(e) ==
                                          reachable |-> Cardinality(Reachable(Range(e.r), <<0, 0, 0>>))]
     [] e.op = "LineAxis"             -> [n |-> e.a.n, axis |-> e.a.axis, len |-> Len(e.r), missing |-> AxisRun(e.a.axis, e.a.n) \ Range(e.r),
                                          extra |-> Range(e.r) \ AxisRun(e.a.axis, e.a.n)]
+    [] e.op = "LineTouch"            -> "no duplicates; every returned voxel meets the segment"
     [] e.op = "LineAxisCount"        -> [entries |-> MaxOf(0, e.a.n) - MinOf(0, e.a.n) + 1, lo |-> MinOf(0, e.a.n), hi |-> MaxOf(0, e.a.n), offaxis |-> 0]
     [] e.op = "LineLong"             -> [len |-> Len(e.r), off |-> Len(e.a.off), hasEnds |-> <<0, 0, 0>> \in Range(e.r) /\ e.a.end \in Range(e.r),
                                          breaks |-> Cardinality({i \in 2..Len(e.r) : ~\E j \in MaxOf(1, i - 3)..(i - 1) : Adj26(e.r[i], e.r[j])})]
